@@ -837,6 +837,9 @@ def wave10_rules(ctx):
     # (2) the loop callback's parameters are bound to the scopes in the order the runtime passes them (shared with C06.scopes)
     from rules.c06 import scopes_rule
     obs += relabel(scopes_rule(ctx), "C06.scopes", "C05.mirror/gen/scope-args")
+    # wave 11: the printer's scope-name stack is cut back after every element, with or without children (shared with C14.scope)
+    from rules.c14 import scope_rules as c14_scope
+    obs += relabel(c14_scope(ctx), "C14.scope/balanced", "C05.mirror/print/balanced")
     return obs
 
 
